@@ -787,7 +787,7 @@ fn gen_case(family: &str, r: &mut Rng) -> Case {
         "classes" => {
             let p = gen_class(r, 2);
             Case { family: family.into(), modes: vec![ModeSpec { name: "M0".into(), pats: vec![PatSpec { p, tt: 0, la: None }], trans: vec![] }],
-                   input: "abcdexz0359é\n\r-^.A".into(), start_offset: 0, ops: vec![], with_positions: false }
+                   input: "abcdexz0359é\n\r-^.A \t_\u{0}\u{1f}\u{7e}\u{7f}\u{80}\u{7ff}\u{800}\u{d7ff}\u{e000}\u{ffff}\u{10000}\u{10ffff}".into(), start_offset: 0, ops: vec![], with_positions: false }
         }
         "positions" => {
             let pats = gen_pats(r, false, npat, 0);
